@@ -14,7 +14,7 @@ from .. import rig as R, ref, gen, subm, dump, qcore
 from ..orch import h
 
 ID = "C04"
-TECHNIQUE = 'runtime monitoring - frame-shape and verbatim monitors: every frame handed to the socket parsed strictly; served events (live, stored, HTTP) deep-compared with the accepted ones; sweep over all Unicode scalar values and JSON types; injected storage faults and rate-limit refusals for the OK frame'
+TECHNIQUE = 'runtime monitoring - frame-shape and verbatim monitors: every frame handed to the socket parsed strictly; served events (live, stored, HTTP) deep-compared with the accepted ones; sweep over all Unicode scalar values and JSON types; injected storage faults and rate-limit refusals for the OK frame; end-to-end shard: the same frame / verbatim monitors over a real gunicorn/uvicorn server (websocket frames as uvicorn writes them, with and without permessage-deflate; GET /e/<id> and the NIP-11 document over real HTTP)'
 LEVEL = "exploration"
 RULE = (
     "cases: (a) subscription ids - every ASCII code point 0-127 alone and embedded, quotes, backslashes, JSON-looking "
